@@ -187,6 +187,34 @@ def all_signatures(crate):
     return out
 
 
+def _guards_only_own_write(crate, key, field, sf):
+    """Every switch of function `key` whose condition reads `field` controls nothing but assignments to `field` itself."""
+    found = False
+    for b in crate.bodies:
+        if b.key != key or b.kind not in ("Fn", "AssocFn"):
+            continue
+        for i, t in b.terms("switch"):
+            if _noise(t) or field not in _fields_in(q.leaves(b, t["d"], adt=True), sf):
+                continue
+            found = True
+            for tgt in {x[1] for x in t.get("targets", [])} | {t.get("otherwise")}:
+                if tgt is None:
+                    continue
+                for x in range(b.n):
+                    if x == i or not q.edge_dominates(b, i, tgt, x):
+                        continue
+                    blk = b.blocks[x]
+                    if blk["term"]["k"] == "call" and not _noise(blk["term"]):
+                        return False
+                    for s_ in blk["stmts"]:
+                        if s_["k"] != "assign" or not s_["p"].get("p"):
+                            continue
+                        names = [e.get("n") for e in s_["p"].get("p", []) if isinstance(e, dict) and "f" in e and e.get("n")]
+                        if names and names[-1] != field:
+                            return False
+    return found
+
+
 def _returned_fields(crate, key, sf):
     """State fields in the data slice of what a (read-only) function returns or branches on."""
     out = set()
@@ -318,6 +346,16 @@ def check(ctx, crate, rule, prefixes, tag=""):
                     if b2.kind in ("Fn", "AssocFn", "Closure"):
                         strict |= cond_reads(b2, sf, skip_loop_headers=True)
             new_c = [x for x in new_c if not (x in wbase and x not in strict)]
+        if new_c:
+            # `if idx > self.max { self.max = idx }`: a test on a field the function is reviewed to write, whose branches do nothing
+            # but write that same field, is that write spelled out as a guarded assignment (instead of `max = max.max(idx)`)
+            wbase = {w.split("<-")[0] for w in ok_w}
+            keep = []
+            for x in new_c:
+                if x in wbase and _guards_only_own_write(crate, k, x, sf):
+                    continue
+                keep.append(x)
+            new_c = keep
         if new_c and not wr:
             # a read-only observer (`&self`, modifies nothing) may consult another field of its *own* structure: that cannot
             # skip or redirect any work of the solver, it only changes how the observer computes its answer
